@@ -7,6 +7,8 @@ pub mod adapt;
 pub mod c01;
 pub mod c02;
 pub mod c03;
+pub mod c06;
+pub mod c07;
 
 #[derive(Debug, Clone, Copy, PartialEq, Eq)]
 pub enum Tier {
@@ -308,6 +310,8 @@ pub fn lean_checks() -> Vec<CheckDef> {
         CheckDef { name: "c01", run: c01::run, replay: c01::replay },
         CheckDef { name: "c02", run: c02::run, replay: c02::replay },
         CheckDef { name: "c03", run: c03::run, replay: c03::replay },
+        CheckDef { name: "c06", run: c06::run, replay: c06::replay },
+        CheckDef { name: "c07", run: c07::run, replay: c07::replay },
     ]
 }
 
